@@ -1,6 +1,6 @@
 // C09 — MPEG-TS packetisation is well-formed and lossless for every frame.
 //
-// Two sub-properties:
+// Sub-properties (patpmt-history lives in a_history_test.go):
 //
 //   - pack-roundtrip: sequences of mpegts.Frame values (audio and video PID, the
 //     continuity counter carried out of Pack into the next frame of the same
@@ -544,13 +544,23 @@ func runPsi(c PsiCase) *pbt.Violation {
 		return pbt.V("psi/size-not-188", "PackPat returned %d bytes, PackPmt %d", len(pat), len(pmt))
 	}
 	wire := append(append([]byte(nil), pat...), pmt...)
+	return checkPatPmtWire(c, wire)
+}
+
+// checkPatPmtWire judges one PAT packet followed by one PMT packet (the block
+// lal puts in front of every hls fragment / sends to every joining http-ts
+// subscriber) against the codecs c of the stream it belongs to.
+func checkPatPmtWire(c PsiCase, wire []byte) *pbt.Violation {
+	if len(wire) != 2*188 {
+		return pbt.V("psi/size-not-188", "PAT/PMT block is %d bytes, want 376", len(wire))
+	}
 	res, err := tsref.Demux(wire, tsref.Options{})
 	if err != nil {
 		return pbt.V("psi/sync-byte", "%v", err)
 	}
 	if len(res.Problems) > 0 {
 		p := res.Problems[0]
-		return pbt.V("psi/malformed/"+p.Kind, "%d problem(s), first: %s; pat=% x pmt=% x", len(res.Problems), p, pat[:24], pmt[:48])
+		return pbt.V("psi/malformed/"+p.Kind, "%d problem(s), first: %s; pat=% x pmt=% x", len(res.Problems), p, wire[:24], wire[188:236])
 	}
 	for _, p := range res.Packets {
 		if !p.PUSI || p.AFC != 1 {
